@@ -13,25 +13,27 @@ import (
 // Structural necessary conditions of C01 from the small-slip round.
 func c01Small(c *Ctx) {
 	// (1) the interface tests of field merging compare across the two definitions
-	c.R.Rule("merge-compares-across", "graphql.getOrCreateAndAppendField: inside a loop over D.Interfaces the element is compared with the Name of the OTHER definition, never with D's own name (a type is not among its own interfaces)", 2)
-	if fn := c.fn(pkgGraphql, "getOrCreateAndAppendField"); fn != nil {
+	c.R.Rule("merge-compares-across", "package graphql (field merging): wherever an element of D.Interfaces is compared with the Name of an *ast.Definition, that definition is the OTHER one, never D itself (a type is not among its own interfaces)", 2)
+	{
 		n := 0
-		for _, b := range fn.Blocks {
-			for _, in := range b.Instrs {
-				bo, ok := in.(*ssa.BinOp)
-				if !ok || bo.Op != token.EQL {
-					continue
-				}
-				for _, pair := range [][2]ssa.Value{{bo.X, bo.Y}, {bo.Y, bo.X}} {
-					ifaceBase := interfacesElemBase(pair[0])
-					nameFA, isName := loadAddr(an.Strip(pair[1])).(*ssa.FieldAddr)
-					if ifaceBase == nil || !isName || fieldNameOf(nameFA) != "Name" {
+		for _, fn := range c.moduleFuncs(func(p string) bool { return p == pkgGraphql }) {
+			for _, b := range fn.Blocks {
+				for _, in := range b.Instrs {
+					bo, ok := in.(*ssa.BinOp)
+					if !ok || bo.Op != token.EQL {
 						continue
 					}
-					n++
-					same := accessPath(ifaceBase, 0) == accessPath(nameFA.X, 0)
-					c.R.Check(!same, sprintf("getOrCreateAndAppendField/interface-test#%d", n), c.ipos(in), "interface of one definition against the name of the other",
-						"an interface of a definition is compared with that definition's own name: the test can never hold, so a field selected once on an object and once on an interface it implements is not merged — it is resolved and delivered twice / its sub-selections are split")
+					for _, pair := range [][2]ssa.Value{{bo.X, bo.Y}, {bo.Y, bo.X}} {
+						ifaceBase := interfacesElemBase(pair[0])
+						nameFA, isName := loadAddr(an.Strip(pair[1])).(*ssa.FieldAddr)
+						if ifaceBase == nil || !isName || fieldNameOf(nameFA) != "Name" {
+							continue
+						}
+						n++
+						same := accessPath(ifaceBase, 0) == accessPath(nameFA.X, 0)
+						c.R.Check(!same, sprintf("%s/interface-test#%d", fn.Name(), n), c.ipos(in), "interface of one definition against the name of the other",
+							"an interface of a definition is compared with that definition's own name: the test can never hold, so a field selected once on an object and once on an interface it implements is not merged — it is resolved and delivered twice / its sub-selections are split")
+					}
 				}
 			}
 		}
